@@ -3,4 +3,6 @@
 #[cfg(kani)]
 mod c12;
 #[cfg(kani)]
+mod c05;
+#[cfg(kani)]
 mod c14;
